@@ -622,3 +622,77 @@ func init() {
 		Desc: "Buffer.Range on a dedicated consumer racing two Puts; callback always true / false at i / panicking at i; then a Get on the same consumer",
 		Opts: vrt.Options{Delay: true}, Run: bRange, Check: bufRangeCheck})
 }
+
+// B-shared-block: one consumer shared by two goroutines where a Get is BLOCKED (asynchronous
+// path) with an uncommitted read while the other goroutine commits / rolls back and a producer
+// eventually puts: T1: G G G ∥ T2: Commit; Rollback ∥ P: Put(2,3)
+func bSharedBlock() {
+	h := newBufH(0, nil)
+	c := h.newC()
+	h.put(0, nil, 1)
+	var wg sync.WaitGroup
+	wg.Add(3)
+	go func() {
+		defer wg.Done()
+		c.get(0, nil)
+		c.get(0, nil)
+		c.get(0, nil)
+	}()
+	go func() {
+		defer wg.Done()
+		c.commit()
+		c.rollback()
+	}()
+	go func() {
+		defer wg.Done()
+		h.put(0, nil, 2, 3)
+	}()
+	wg.Wait()
+	h.diff(c)
+	h.finish(c)
+}
+
+func init() {
+	vrt.Register(&vrt.Scenario{Name: "B-shared-block", Props: []string{"C01", "C02", "C11:race", "C12:goroutine-leak,close-"}, Quick: 2, Thorough: 3,
+		Desc: "one consumer shared by two goroutines: a Get blocked on the empty buffer with an uncommitted read vs Commit/Rollback from the other goroutine vs a late Put",
+		Opts: vrt.Options{Delay: true}, Run: bSharedBlock, Check: bufferCheck(defaultPolicy)})
+}
+
+// B-evict-commit: FixedBufferCleaner(2,1); the lagging consumer COMMITS a read that a forced trim
+// has already passed and then reads on: every later Get must fail, never skip.
+func bEvictCommit() {
+	h := newBufH(0, FixedBufferCleaner(2, 1, nil))
+	l, f := h.newC(), h.newC()
+	var wg sync.WaitGroup
+	wg.Add(3)
+	go func() {
+		defer wg.Done()
+		h.put(0, nil, 1)
+		h.put(0, nil, 2)
+		h.put(0, nil, 3)
+	}()
+	go func() {
+		defer wg.Done()
+		l.get(0, nil)
+		l.commit()
+		l.get(0, nil)
+		l.commit()
+		l.get(0, nil)
+	}()
+	go func() {
+		defer wg.Done()
+		for i := 0; i < 3; i++ {
+			f.get(0, nil)
+			f.commit()
+		}
+	}()
+	wg.Wait()
+	h.diff(l)
+	h.finish(l, f)
+}
+
+func init() {
+	vrt.Register(&vrt.Scenario{Name: "B-evict-commit", Props: []string{"C01", "C03", "C11:race", "C12:goroutine-leak,close-"}, Quick: 2, Thorough: 3,
+		Desc: "FixedBufferCleaner(2,1): a lagging consumer commits reads that a forced trim has passed, then reads on",
+		Opts: vrt.Options{Delay: true}, Run: bEvictCommit, Check: bufferCheck(fixedPolicy(2, 1))})
+}
